@@ -91,6 +91,13 @@ def rand_fpair(rng, sr, sym, cplx, maxnd=3):
     mk = {'int': lambda v: v, 'tuple': lambda v: (v % 3, v), 'str': lambda v: 'ab'[v % 2] + chr(96 + v)}[kind]
     a = gen.rand_array(rng, sr, sym, chargemaps=cma, duals=dua, cplx=cplx, fermionic=True, oddpos=mk(l1), lo=-2, hi=2)
     b = gen.rand_array(rng, sr, sym, chargemaps=cmb, duals=dub, cplx=cplx, fermionic=True, oddpos=mk(l2), lo=-2, hi=2)
+    if not b.oddpos and rng.random() < 0.5:
+        # an even operand that has already subsumed two odd tensors (two sorted labels)
+        from symmray.fermionic_local_operators import FermionicOperator as FO
+        l3, l4 = sorted(rng.sample([v for v in range(1, 12) if v != l1], 2))
+        lab = sorted([mk(l3), mk(l4)])
+        b = gen.rand_array(rng, sr, sym, chargemaps=cmb, duals=dub, charge=b.charge, cplx=cplx, fermionic=True,
+                           oddpos=[FO(lab[0]), FO(lab[1])], lo=-2, hi=2)
     return gen.rand_lazy(rng, sr, a), gen.rand_lazy(rng, sr, b), axa, axb
 
 
